@@ -114,7 +114,9 @@ class HypercubicPeriodicBoundaries(PeriodicBoundaries):
         float
             The position entry corrected for periodic boundaries.
         """
-        return position_entry % system_length
+        corrected_entry = position_entry % system_length
+        # The modulo of a tiny negative float rounds to the system length itself, which is equivalent to 0.0.
+        return corrected_entry if corrected_entry != system_length else 0.0
 
     @staticmethod
     def separation_vector(reference_position: Sequence[float],
